@@ -607,6 +607,31 @@ func c06Authz(r *Run) {
 		r.Bad("R5", "anchor/checkDisabledMsgs", "", "AuthzLimiterDecorator.checkDisabledMsgs not found")
 		return
 	}
+	r.Rule("R9", "SHAPE.a-nested-grant-is-an-inner-message-too: MsgGrant is itself a barred type (R8), and 'barred types can be neither granted nor executed through nested grants': in the scan's MsgGrant arm the message's own type URL — sdk.MsgTypeURL of the *authz.MsgGrant — is handed to isDisabledMsg (under the inner flag), not only its authorization's: otherwise MsgExec{B,[MsgGrant{V→C, Generic(MsgSend)}]} passes both Cosmos routes and a grant of MsgGrant stored before the bar keeps working")
+	{
+		n := 0
+		eachCall(cd, func(ci CallInfo) {
+			if ci.Name != "isDisabledMsg" {
+				return
+			}
+			backSlice(ci.Instr.Common().Args...).Any(func(v ssa.Value) bool {
+				c, ok := v.(*ssa.Call)
+				if !ok {
+					return false
+				}
+				g := callInfo(c)
+				if g.Name != "MsgTypeURL" || g.Invoke || len(c.Call.Args) != 1 {
+					return false
+				}
+				if namedName(deref(stripValue(c.Call.Args[0]).Type())) == "MsgGrant" {
+					n++
+				}
+				return false
+			})
+		})
+		r.Check(n >= 1, "R9", fnID(cd)+"#nested-grant-looked-up-as-a-message", P.Pos(fnPos(cd)), "isDisabledMsg(sdk.MsgTypeURL(<*authz.MsgGrant>)) exists",
+			"the MsgGrant arm of the scan looks only at the authorization's type: a barred MsgGrant nested in a MsgExec is accepted — with a grant V→B of MsgGrant in state, MsgExec{B,[MsgGrant{V→C, Generic(MsgSend)}]} passes the ante handler and C holds a MsgSend authorization over V")
+	}
 	where := P.Pos(fnPos(cd))
 	cases := assertedTypes(cd)
 	// enumerate sdk.Msg implementers with []*Any fields in the import closure of app
